@@ -599,7 +599,9 @@ func (st *wstate) runLifetime(i int, l *scen.Lifetime) {
 			return
 		}
 		out.Stats.Outcomes[obs]++
-		if faulted[key] {
+		if faulted[key] && ex.Why != "matcher" && ex.Why != "invalid" {
+			// (a call whose matchers fail or whose input is invalid is decided before any disk
+			// access: a fault it meets all the same does not change what it has to report)
 			// narrow oracle under faults: one outcome signal (checked above); nothing on CI
 			if lf.Mode.CI {
 				for _, op := range opsOf[key] {
